@@ -105,7 +105,6 @@ End Keys.
 Definition keys_nodup {V} (l : list (str * V)) : Prop := NoDup (map fst l).
 
 (** * Rebuilding a store from an enumeration *)
-Definition props_ok (ps : props) : Prop := NoDup (map fst ps).
 Definition dnode_ok (n : dnode) : Prop := NoDup (snd (fst n)) /\ props_ok (snd n).
 Definition dedge_ok (e : dedge) : Prop := props_ok (snd e).
 
@@ -288,10 +287,6 @@ Proof.
 Qed.
 
 (** * Well-formed stores: distinct keys everywhere (every reachable store is) *)
-Definition store_wf (s : store) : Prop :=
-  NoDup (map fst (s_nodes s)) /\ NoDup (map fst (s_edges s))
-  /\ (forall kv, In kv (s_nodes s) -> NoDup (n_labels (snd kv)))
-  /\ (forall id, props_ok (props_of id (s_nprops s))) /\ (forall id, props_ok (props_of id (s_eprops s))).
 
 Lemma dump_nodes_ids s e : NoDup (map fst (s_nodes s)) -> NoDup (map nid (dump_nodes s e)).
 Proof.
@@ -366,16 +361,15 @@ Qed.
 Section SnapProofs.
   Variable enc_snap : snapshot -> bytes.
   Variable dec_snap : bytes -> option (snapshot * nat).
-  (** premise standing for bincode: decoding the encoding returns the value and its length,
-      whatever follows *)
-  Hypothesis dec_enc_snap : forall sn rest, dec_snap (enc_snap sn ++ rest) = Some (sn, length (enc_snap sn)).
+  Notation carried := (snap_carried enc_snap dec_snap).
 
   Lemma import_export_l s :
+    carried (snapshot_of s) ->
     store_wf s -> epoch_clean s = true -> names_max_id (snapshot_of s) = false ->
     exists c, import dec_snap (export enc_snap s) = IOk c /\ dump c latest = dump s latest
               /\ dump c (s_epoch c) = dump s latest.
   Proof.
-    intros W C M. unfold import, export. rewrite <- (app_nil_r (enc_snap _)), dec_enc_snap.
+    intros dec_enc_snap W C M. unfold import, export. rewrite <- (app_nil_r (enc_snap _)), dec_enc_snap.
     cbn [sn_version snapshot_of]. rewrite Z.eqb_refl, M. eexists. split; [reflexivity|].
     apply copy_dump_l; assumption.
   Qed.
@@ -388,9 +382,10 @@ Section SnapProofs.
   Qed.
   (** exporting the import of an export gives the same bytes *)
   Lemma export_import_export_l s c :
+    carried (snapshot_of s) ->
     store_wf s -> import dec_snap (export enc_snap s) = IOk c -> export enc_snap c = export enc_snap s.
   Proof.
-    intros W. unfold import, export at 1. rewrite <- (app_nil_r (enc_snap _)), dec_enc_snap.
+    intros dec_enc_snap W. unfold import, export at 1. rewrite <- (app_nil_r (enc_snap _)), dec_enc_snap.
     cbn [sn_version snapshot_of]. rewrite Z.eqb_refl. destruct (names_max_id _); [discriminate|].
     intros H. injection H as <-. pose proof (snapshot_ok s W) as OK.
     unfold export. f_equal. unfold snapshot_of at 1. rewrite (build_epoch _ OK).
@@ -415,17 +410,17 @@ Section SnapProofs.
 
   (** C07-K2: whatever follows a valid snapshot is ignored *)
   Lemma trailing_accepted_l sn junk :
-    import dec_snap (enc_snap sn ++ junk) = import dec_snap (enc_snap sn).
+    carried sn -> import dec_snap (enc_snap sn ++ junk) = import dec_snap (enc_snap sn).
   Proof.
-    unfold import. rewrite dec_enc_snap. pose proof (dec_enc_snap sn []) as H. rewrite app_nil_r in H. rewrite H. reflexivity.
+    intros dec_enc_snap. unfold import. rewrite dec_enc_snap. pose proof (dec_enc_snap []) as H. rewrite app_nil_r in H. rewrite H. reflexivity.
   Qed.
   Lemma trailing_class_l sn junk : junk <> [] -> k07_2 (enc_snap sn ++ junk) (length (enc_snap sn)) = true.
   Proof. intros H. unfold k07_2. apply Nat.ltb_lt. rewrite app_length. destruct junk; [congruence|cbn; lia]. Qed.
 
   (** C07-K3: a snapshot that names the largest id makes import panic *)
-  Lemma import_max_id_l sn : sn_version sn = 1 -> k07_3 sn = true -> import dec_snap (enc_snap sn) = IPanic.
+  Lemma import_max_id_l sn : carried sn -> sn_version sn = 1 -> k07_3 sn = true -> import dec_snap (enc_snap sn) = IPanic.
   Proof.
-    intros V K. unfold import. rewrite <- (app_nil_r (enc_snap sn)), dec_enc_snap, V. cbn. unfold k07_3 in K. rewrite K. reflexivity.
+    intros dec_enc_snap V K. unfold import. rewrite <- (app_nil_r (enc_snap sn)), dec_enc_snap, V. cbn. unfold k07_3 in K. rewrite K. reflexivity.
   Qed.
 End SnapProofs.
 
@@ -465,8 +460,7 @@ Section SaveProofs.
   Variable enc : record -> bytes.
   Variable dec : bytes -> option record.
   Hypothesis crc_range : forall p, 0 <= crc p < two32.
-  Hypothesis dec_enc : forall r, dec (enc r) = Some r.
-  Hypothesis enc_short : forall r, lenZ (enc r) < two32.
+  Notation ok := (rec_ok enc dec).
 
   (** the state [save] leaves just before it closes the target *)
   Definition save_state (cfg : wcfg) (s : store) : dbstate :=
@@ -476,10 +470,11 @@ Section SaveProofs.
       directory yields exactly the store [to_memory] builds *)
   Lemma save_open_l cfg s :
     w_seq (db_w (db_close crc enc cfg (save_state cfg s))) = 0 ->
+    Forall ok (save_records s ++ close_logs (save_state cfg s)) ->
     save_open crc enc dec cfg s = ROk (to_memory s).
   Proof.
-    intros Hseq. unfold save_open, save_disk. fold (save_state cfg s).
-    destruct (inv_fresh crc enc) as [I0 _].
+    intros Hseq Hok. apply Forall_app in Hok as [Hok1 Hok2]. unfold save_open, save_disk. fold (save_state cfg s).
+    destruct (inv_fresh crc enc dec) as [I0 _].
     assert (H1 : w_seq (db_w (save_state cfg s)) = 0).
     { unfold db_close in Hseq. destruct (last_or_begin _) as [tx t1]. cbn [db_w] in Hseq.
       rewrite wsync_seq in Hseq.
@@ -487,17 +482,18 @@ Section SaveProofs.
       pose proof (wlog_seq_mono crc enc cfg (db_w (save_state cfg s)) (TxCommit tx)).
       pose proof (wlog_all_seq_mono crc enc cfg (save_records s) (db_w db_fresh)).
       unfold save_state in *. cbn [db_w] in *. change (w_seq (db_w db_fresh)) with 0 in *. lia. }
-    destruct I0 as (S0 & M0 & E0).
+    destruct I0 as (S0 & M0 & E0 & OK0).
     destruct (wlog_all_single crc enc cfg (save_records s) (db_w db_fresh) [] S0 H1) as [S1 M1].
-    assert (I1 : Inv crc enc (save_state cfg s) ([] ++ save_records s)).
-    { apply (inv_log_data crc enc db_fresh [] (save_records s) (save_state cfg s)).
+    assert (I1 : Inv crc enc dec (save_state cfg s) ([] ++ save_records s)).
+    { apply (inv_log_data crc enc dec db_fresh [] (save_records s) (save_state cfg s)).
       - repeat split; assumption.
       - apply data_save_records.
+      - exact Hok1.
       - exact S1.
       - unfold save_state. cbn [db_w]. rewrite M1. exact M0.
       - unfold save_state. cbn [db_store]. symmetry. apply save_records_build. }
     assert (Hs : w_seq (db_w (db_close crc enc cfg (save_state cfg s))) = w_seq (db_w (save_state cfg s))) by (rewrite Hseq, H1; reflexivity).
-    destruct (close_reopen_inv crc enc dec crc_range dec_enc enc_short cfg _ _ I1 Hs) as (st2 & log2 & DO & ST & _).
+    destruct (close_reopen_inv crc enc dec crc_range cfg _ _ I1 Hs Hok2) as (st2 & log2 & DO & ST & _).
     unfold end_disk in DO. rewrite DO, ST. reflexivity.
   Qed.
 End SaveProofs.
